@@ -28,7 +28,12 @@ class QuoteBook(object):
         self.q.pop(asset, None)
 
     def bid_ask(self, asset):
-        return self.q.get(asset, (self._f(math.nan), self._f(math.nan)))
+        q = self.q.get(asset)
+        if q is None:
+            # like the real handler: the numpy NaN singleton for "no quote"
+            import numpy as np
+            return (np.nan, np.nan)
+        return q
 
     def mid(self, asset):
         b, a = self.bid_ask(asset)
